@@ -276,11 +276,47 @@ class Translator:
             c = arg.const()
             if c == 0:
                 return Rat(p_const(1))
+            if getattr(self, 'general_pow', False) and arg.d == p_const(1) and len(arg.n) > 1 or \
+                    (getattr(self, 'general_pow', False) and arg.d == p_const(1) and len(arg.n) == 1 and self._log_term(next(iter(arg.n.items()))) is not None):
+                # exp(A + k*log(x)) = x**k * exp(A) for integer k (interior of the domain: x > 0)
+                out = Rat(p_const(1))
+                rest = {}
+                for m, cc in arg.n.items():
+                    lt = self._log_term((m, cc))
+                    if lt is not None:
+                        x, k = lt
+                        out = out * x.pow(k)
+                    else:
+                        rest[m] = cc
+                if out.n != p_const(1) or out.d != p_const(1):
+                    return out * (self.apply('exp', Rat(rest)) if rest else Rat(p_const(1)))
         if f == 'log':
             c = arg.const()
             if c == 1:
                 return Rat(p_const(0))
+            if getattr(self, 'general_pow', False) and len(arg.n) == 1 and len(arg.d) == 1:
+                # log(c * prod a_i**e_i / (c' * prod b_j**f_j)) = log c - log c' + sum e_i log a_i - sum f_j log b_j   (all factors > 0 on the interior)
+                (mn, cn), = arg.n.items()
+                (md, cd), = arg.d.items()
+                if (len(mn) + len(md) > 1 or (len(mn) + len(md) == 1 and (cn != 1 or cd != 1 or (mn and mn[0][1] != 1) or md))) and cn > 0 and cd > 0:
+                    out = Rat(p_const(0))
+                    if cn != 1:
+                        out = out + self._mk_atom('log', Rat(p_const(cn)))
+                    if cd != 1:
+                        out = out - self._mk_atom('log', Rat(p_const(cd)))
+                    for (a, e) in mn:
+                        out = out + Rat(p_const(e)) * self.apply('log', Rat(p_atom(a)))
+                    for (a, e) in md:
+                        out = out - Rat(p_const(e)) * self.apply('log', Rat(p_atom(a)))
+                    return out
         return self._mk_atom(f, arg)
+
+    def _log_term(self, item):
+        """(x, k) when the monomial is k * log(x) with integer k"""
+        m, cc = item
+        if len(m) == 1 and m[0][1] == 1 and m[0][0].startswith('log(') and m[0][0] in self._atom_args and Fraction(cc).denominator == 1:
+            return self._atom_args[m[0][0]], int(cc)
+        return None
 
     def _mk_atom(self, f, arg):
         name = f'{f}({arg.key()})'
@@ -330,6 +366,9 @@ class Translator:
                     half = isinstance(k, ast.Constant) and k.value == 0.5
                     if half:
                         return self.apply('sqrt', self.expr(e.left, env, cls, depth))
+                    if getattr(self, 'general_pow', False):
+                        # x ** y = exp(y * log x) on x > 0 (used where the identity is checked on the interior of the domain)
+                        return self.apply('exp', self.expr(k, env, cls, depth) * self.apply('log', self.expr(e.left, env, cls, depth)))
                     raise Unsupported('non-integer power')
                 return self.expr(e.left, env, cls, depth).pow(kv)
             a, b = self.expr(e.left, env, cls, depth), self.expr(e.right, env, cls, depth)
@@ -520,3 +559,26 @@ def derivative(tr, r, var):
     if dd.is_zero():
         return dn / Rat(r.d)
     return (dn * Rat(r.d) - Rat(r.n) * dd) / (Rat(r.d) * Rat(r.d))
+
+
+def merge_exps(tr, r, rounds=4):
+    """a single-term quotient with several exp(..) factors: exp(a)**i * exp(b)**j / exp(c)**k = exp(i*a + j*b - k*c), the argument simplified as a
+    rational function (and k*log(x) terms taken out again as x**k by Translator.apply)"""
+    for _ in range(rounds):
+        if len(r.n) != 1 or len(r.d) != 1:
+            return r
+        (mn, cn), = r.n.items()
+        (md, cd), = r.d.items()
+        exps = [(a, e) for (a, e) in mn if a.startswith('exp(') and a in tr._atom_args] + [(a, -e) for (a, e) in md if a.startswith('exp(') and a in tr._atom_args]
+        if len(exps) < 1:
+            return r
+        total = Rat(p_const(0))
+        for (a, e) in exps:
+            total = total + Rat(p_const(e)) * tr._atom_args[a]
+        rest_n = tuple((a, e) for (a, e) in mn if not (a.startswith('exp(') and a in tr._atom_args))
+        rest_d = tuple((a, e) for (a, e) in md if not (a.startswith('exp(') and a in tr._atom_args))
+        new = Rat({rest_n: cn}, {rest_d: cd}) * (tr.apply('exp', total) if total.n else Rat(p_const(1)))
+        if new.n == r.n and new.d == r.d:
+            return r
+        r = new
+    return r
